@@ -61,8 +61,15 @@ class Check(PropertyCheck):
                 elif r < 0.7: steps.append(["connect", "ok" if rng.random() < 0.75 else "refuse"])
                 elif r < 0.88: steps.append(["respond"])
                 elif r < 0.95: steps.append(["srv_eof"])
-                else: steps.append(["tick", rng.choice([1, 30])])
-            yield {"flows": flows, "steps": steps}
+                elif r < 0.97: steps.append(["tick", rng.choice([1, 30])])
+                else: steps.append(["opt", rng.choice([1, -1])])
+            case = {"flows": flows, "steps": steps}
+            if rng.random() < 0.35:
+                # the option is switched at runtime: at idle and at busy moments
+                case["conc0"] = rng.choice([1, -1])
+                for _ in range(rng.randint(1, 3)):
+                    steps.insert(rng.randint(0, len(steps)), ["opt", rng.choice([1, -1])])
+            yield case
 
     # ---- implementation -----------------------------------------------------------------------
     def impl(self, case):
@@ -106,13 +113,17 @@ class Check(PropertyCheck):
                                      f"client_replay_concurrency=1, had not finished")
                 replays.append([r[1], r[2], False, False])
             elif k == "arrive":
-                for p in replays:
-                    if p[1] == 1 and not p[3] and p[0] != r[1]:
-                        fails.append(f"request of flow {r[1]} arrived while the replay of flow {p[0]}, started with "
-                                     f"client_replay_concurrency=1, had not finished")
                 cand = [p for p in replays if p[0] == r[1] and not p[2] and not p[3]]
                 if not cand: fails.append(f"request of flow {r[1]} arrived but no replay of it is running")
-                else: cand[0][2] = True
+                else:
+                    cand[0][2] = True
+                    # "a replayed request is sent only after the previous replay has finished": every replay started BEFORE
+                    # this one while the option was 1 must have finished (replays started earlier with -1 run in the
+                    # background and may send whenever their connection is up)
+                    for p in replays[:replays.index(cand[0])]:
+                        if p[1] == 1 and not p[3]:
+                            fails.append(f"request of flow {r[1]} arrived while the earlier replay of flow {p[0]}, started "
+                                         f"with client_replay_concurrency=1, had not finished")
             elif k == "finish":
                 cand = [p for p in replays if p[0] == r[1] and not p[3]]
                 if cand: cand[0][3] = True
@@ -155,15 +166,34 @@ class Check(PropertyCheck):
         attrs = ",".join(ATTR.get(k, "001110") for k in case["flows"])
         fss = ",".join(FST.get(k, "0.0.0.0/-") for k in case["flows"])
         lines = [f"reset {attrs} {fss}"]
+        if case.get("conc0", 1) == -1: lines.append("setopt 0")
+        ticket = 0; tq = []          # tickets in queue order (order of put_nowait)
+        run = []                     # running replays: [ticket, flow, sequential, request sent]
         for r in obs["trace"]:
             k = r[0]
             if k == "start":
-                for i in r[1]: lines.append(f"check {i}")     # verdicts at the time of the call (no duplicates effect: check is pure)
+                for i in r[1]: lines.append(f"check {i}")     # verdicts at the time of the call
                 lines.append("start " + (",".join(map(str, r[1])) or "-"))
-            elif k == "stop": lines.append("stop")
-            elif k == "take": lines.append("take")
-            elif k == "arrive": lines.append("send")
-            elif k == "finish": lines.append(f"finish {1 if r[2] == 'response' else 0}")
+            elif k == "enq": tq.append(ticket); ticket += 1
+            elif k == "stop": lines.append("stop"); tq = []
+            elif k == "opt": lines.append(f"setopt {1 if r[1] == 1 else 0}")
+            elif k == "take":
+                # the model decides the mode itself, from the option value it holds when the flow is dispatched
+                t = tq.pop(0) if tq else -1
+                run.append([t, r[1], r[2] != -1, False]); lines.append("take")
+            elif k == "arrive":
+                cand = [p for p in run if p[1] == r[1] and not p[3]]
+                if cand:
+                    cand[0][3] = True
+                    lines.append("send" if cand[0][2] else f"bsend {cand[0][0]}")
+                else: lines.append("send")
+            elif k == "finish":
+                cand = [p for p in run if p[1] == r[1]]
+                if cand:
+                    run.remove(cand[0])
+                    res = 1 if r[2] == "response" else 0
+                    lines.append(f"finish {res}" if cand[0][2] else f"bfinish {cand[0][0]} {res}")
+                else: lines.append(f"finish {1 if r[2] == 'response' else 0}")
             elif k == "edit": lines.append(f"edit {r[1]}")
             elif k == "state": lines.append("q")
         return lines
@@ -181,17 +211,22 @@ class Check(PropertyCheck):
 
     def impl_view(self, case, obs):
         states, checks = [], []
-        sent = False
+        run = []         # running replays, oldest first: [flow, sequential, request sent]
         for r in obs["trace"]:
-            if r[0] == "take": sent = False
-            elif r[0] == "arrive": sent = True
+            if r[0] == "take": run.append([r[1], r[2] != -1, False])
+            elif r[0] == "arrive":
+                cand = [p for p in run if p[0] == r[1] and not p[2]]
+                if cand: cand[0][2] = True
+            elif r[0] == "finish":
+                cand = [p for p in run if p[0] == r[1]]
+                if cand: run.remove(cand[0])
             elif r[0] == "state":
                 q = ",".join(map(str, r[1])) or "-"
                 fl = ";".join(".".join(map(str, f)) for f in r[3]) or "-"
-                # the liveness variant, computed from the REAL addon state: 3 per queued flow, 2 for a taken replay,
-                # 1 for a replay whose request has reached the server
-                v = 3 * len(r[1]) + (0 if r[2] == -1 else (1 if sent else 2))
-                states.append(f"{q} {r[2]} {fl}|v{v}")
+                # the liveness variant, computed from the REAL run: 3 per queued flow, 2 for a started replay, 1 for a
+                # replay whose request has reached the server (awaited or background)
+                v = 3 * len(r[1]) + sum(1 if p[2] else 2 for p in run)
+                states.append(f"{q} {r[2]} {fl}|v{v}|o{1 if r[4] != -1 else 0}|b{r[5]}")
             elif r[0] == "start":
                 # the verdict for a flow listed twice is taken once before the call; the model is asked before the call too
                 checks.extend(r[3])
